@@ -1,11 +1,16 @@
 package props
 
 import (
+	"encoding/json"
 	"fmt"
+	"time"
 
 	"github.com/aukilabs/hagall-common/messages/hagallpb"
 
 	"verif/check"
+	"verif/explore"
+	"verif/s1"
+	"verif/vrt"
 	"verif/world"
 )
 
@@ -296,6 +301,131 @@ func init() {
 				return append(jobs, s2jobOpt("c07-pipelined-join-behind-fatal-request", b, 300, true, false))
 			}
 			return append(jobs, s2job("c07-pipelined-join-behind-fatal-request", b, 300))
+		})
+	}
+}
+
+// ---- a request made after a newcomer's join was answered --------------------------------
+//
+// d joins; as soon as d's client has its PARTICIPANT_JOIN_RESPONSE in hand (real-time
+// order: the join precedes), a makes a request whose relay every other member is owed.
+// The request may be placed at any scheduling point after the response arrived (an
+// environment deviation), d's main loop may be preempted in the rest of its join
+// handler. d must be relayed a's request: it was a member before the request was made.
+
+type joinRelayParams struct {
+	Kind  string `json:"kind"`
+	Bound int    `json:"bound"`
+}
+
+func runJoinThenRelay(kind string, ch vrt.Chooser) explore.Outcome {
+	w := world.New(world.Config{Modules: []string{"vikja", "odal"}}, ch)
+	s := w.S
+	s.EagerLabels = []string{eagerPrefix}
+	s.NoPreempt = true
+	x := &Ctx{W: w, C: map[string]*world.Client{}, J: map[string]JoinInfo{}, Vars: map[string]any{}}
+	baseB1(x)
+	d := x.C["d"]
+	var q *breq
+	var jrid uint32
+	env := []func(){
+		func() {
+			m, rid := joinReq(w, d, x.J["a"].SessionID)
+			jrid = rid
+			d.SendMsg(m)
+		},
+		func() {
+			// only once d holds the answer to its join
+			if ji := parseJoin(d.All(), jrid); !ji.OK {
+				return
+			}
+			q = buildReq(x, pairReq{"a", kind})
+			x.C["a"].SendMsg(q.msg)
+			if q.tick {
+				s.Advance(w.Cfg.FrameDuration)
+			}
+		},
+	}
+	s.NoPreempt = false
+	s.ForgetLastRun()
+	s.RunScript(env)
+	s.NoPreempt = true
+	if st := stuck(s); len(st) > 0 {
+		x.fail("deadlock", stuckClass(s), "threads blocked forever: %v", st)
+	} else {
+		for i := 0; i < 2; i++ {
+			w.Tick(w.Cfg.FrameDuration)
+		}
+		if q != nil {
+			accepted := q.rid == 0 || (q.accept != nil && q.accept(respsOf(x.C["a"].All(), q.rid)))
+			cnt := 0
+			for _, r := range d.All() {
+				if r.Type == q.relayType && s1.Canon(r).Origin == q.ts {
+					cnt++
+				}
+			}
+			if accepted && cnt != 1 {
+				x.fail("relay", kind+":newcomer-relayed-"+fmt.Sprint(cnt)+"-times-after-its-join-was-answered", "d's join had been answered when a made its %s request; d was relayed it %d times", kind, cnt)
+			}
+		}
+	}
+	left := w.Finish()
+	for _, p := range w.Panics {
+		x.fail("panic", "goroutine-panicked:"+p.Label+":"+panicSite(p.Stack), "a server goroutine (%s) panicked: %s", p.Label, p.Value)
+	}
+	finalInvariants(x, left)
+	return explore.Outcome{Points: s.Points, Steps: s.Steps, HitCap: s.HitCap, Violations: x.V, Key: outcomeKey(x)}
+}
+
+func init() {
+	check.Register("joinrelay", func(j *check.Job) *check.Result {
+		var p joinRelayParams
+		json.Unmarshal(j.Params, &p)
+		res := &check.Result{Bound: p.Bound, Extra: map[string]any{"kind": p.Kind}}
+		if j.Replay != nil {
+			out := runJoinThenRelay(p.Kind, &explore.FixedChooser{Choices: j.Replay.Choices})
+			for _, v := range out.Violations {
+				res.Violations = append(res.Violations, check.Violation{Scenario: j.Name, Oracle: v.Oracle, Detail: v.Detail, Info: v.Info, Tags: violationTags(v.Oracle, v.Detail)})
+			}
+			res.Executions, res.Exhaustive = 1, true
+			return res
+		}
+		cfg := explore.Config{Bound: p.Bound}
+		if j.BudgetS > 0 {
+			cfg.Deadline = time.Now().Add(time.Duration(j.BudgetS) * time.Second)
+		}
+		st := explore.Explore(func(ch vrt.Chooser) explore.Outcome { return runJoinThenRelay(p.Kind, ch) }, cfg)
+		res.Executions, res.States, res.Transitions, res.Steps = st.Executions, st.Executions, st.Points+st.Executions, st.Steps
+		res.Outcomes, res.Exhaustive, res.CapHit, res.MaxDepth = len(st.Outcomes), st.Exhaustive, st.CapHit, st.MaxPoints
+		res.BoundDone = &st.BoundDone
+		if len(st.Diverged) > 0 {
+			res.EngineError = "replay divergence: " + st.Diverged[0]
+		}
+		seen := map[string]bool{}
+		for _, f := range st.Found {
+			if !seen[f.Oracle+f.Detail] {
+				seen[f.Oracle+f.Detail] = true
+				res.Violations = append(res.Violations, check.Violation{Scenario: j.Name, Oracle: f.Oracle, Detail: f.Detail, Info: f.Info, Replay: &check.Replay{Choices: trimZeros(f.Prefix)}, Tags: violationTags(f.Oracle, f.Detail)})
+			}
+		}
+		res.Samples = []any{map[string]any{"script": []string{"d:join", "a:" + p.Kind + " once d holds its join response"}, "bound": p.Bound}}
+		return res
+	})
+	jr := func(kind string, bound int) check.Job {
+		p, _ := json.Marshal(joinRelayParams{Kind: kind, Bound: bound})
+		return check.Job{Kind: "joinrelay", Name: "S3:join-answered-then-" + kind, Params: p, BudgetS: 300}
+	}
+	for id, kinds := range map[string][]string{"C14": {"custom"}, "C16": {"action"}, "C11": {"pose"}, "C02": {"custom", "eadd", "edel", "action"}, "C01": {"eadd", "edel"}} {
+		kinds := kinds
+		check.WrapPlanner(id, func(tier string, jobs []check.Job) []check.Job {
+			b := 2
+			if tier == "thorough" {
+				b = 3
+			}
+			for _, k := range kinds {
+				jobs = append(jobs, jr(k, b))
+			}
+			return jobs
 		})
 	}
 }
